@@ -114,16 +114,26 @@ def E1_lmpdat_writer_reader(repo, clause):
             raise AnalysisError("E1: writer branch for atom style %s not found" % style)
         rc = reader_cols(style)
         cols = []
+        data_dependent = {}
         for j, e in enumerate(elts[:-1]):   # last element is the label comment
             txt = ast.unparse(e)
-            a = affine(e)
+            ee = e
+            # a column taken from a local array computed from self.<attr> (e.g. ids[i] with ids = self.groups + 1): look through the local
+            if isinstance(e, ast.Subscript) and isinstance(e.value, ast.Name):
+                dv = expand(w, e.value)
+                if not (isinstance(dv, ast.Name)):
+                    ee = ast.BinOp(left=ast.Constant(0), op=ast.Add(), right=dv) if False else dv
+            a = affine(ee)
             attr = None
             off = 0
-            for s in ast.walk(e):
+            for s in ast.walk(ee):
                 if is_self_attr(s):
                     attr = s.attr
             if a is not None and a.get("", 0) == 1:
                 off = 1
+            # an offset that is itself computed from the data (min / max / mean of the column) is not a constant the reader can undo
+            if attr is not None and any(isinstance(x, ast.Call) and call_name(x) in ("min", "max", "amin", "amax", "mean", "unique", "argsort") for x in ast.walk(ee)):
+                data_dependent[attr] = ast.unparse(ee)[:70]
             cols.append((j, attr, off, txt))
         # id column
         obs.append(Ob("E1", clause, w, c, cols[0][1] is None and cols[0][2] == 1, "Atoms/%s: column 0 is the 1-based atom id (%s)" % (style, cols[0][3]),
@@ -142,10 +152,14 @@ def E1_lmpdat_writer_reader(repo, clause):
             need_off = attr != "charges"
             if ok and need_off:
                 ok = wcol[0][2] == 1
+            dd = data_dependent.get(attr)
+            if dd:
+                ok = False
             obs.append(Ob("E1", clause, w, c, ok,
-                          "Atoms/%s: %s written in column %s with offset %+d, read from column %s with offset %+d" % (
-                              style, attr, wcol[0][0] if wcol else "?", wcol[0][2] if wcol else 0, rcol[0] if rcol else "?", rcol[2] if rcol else 0),
-                          slot="atoms-%s:%s" % (style, attr)))
+                          "Atoms/%s: %s written in column %s with offset %+d, read from column %s with offset %+d%s" % (
+                              style, attr, wcol[0][0] if wcol else "?", wcol[0][2] if wcol else 0, rcol[0] if rcol else "?", rcol[2] if rcol else 0,
+                              "" if not dd else " -- the written value `%s` is shifted by a quantity computed from the data itself; the reader subtracts the constant 1, so the column does not read back unless that quantity happens to be 0" % dd),
+                          slot="atoms-%s:%s" % (style, attr), positive=bool(dd)))
         # coordinates: x, y, z loop targets of enumerate(self.positions), three consecutive columns
         xyz = None
         if lp is not None and isinstance(lp.iter, ast.Call) and call_name(lp.iter) == "enumerate" and is_self_attr(lp.iter.args[0], "positions") \
@@ -897,6 +911,12 @@ def E4_cml(repo, clause):
         subs = [s for s in ast.walk(bl[0].value) if isinstance(s, ast.Subscript) and isinstance(s.value, ast.Name) and s.value.id == mname]
         ok = len(subs) == 2 and not any(isinstance(c, ast.Call) and call_name(c) == "int" for c in ast.walk(bl[0].value))
     parsed = bool(bl) and any(isinstance(c, ast.Call) and call_name(c) in ("int", "float") for c in ast.walk(bl[0].value))
+    # ... also when the endpoints go through a local helper that parses the reference as a number (int(ref) / ref.isdigit())
+    if bl and not parsed:
+        for c_ in [x for x in ast.walk(bl[0].value) if isinstance(x, ast.Call) and isinstance(x.func, ast.Name)]:
+            helper = repo.fns.get((fn.module.name, fn.qualname + "." + c_.func.id)) or repo.maybe_fn(c_.func.id)
+            if helper is not None and any(isinstance(y, ast.Call) and call_name(y) in ("int", "float", "isdigit", "isnumeric", "isdecimal") for y in ast.walk(helper.node)):
+                parsed = True
     obs.append(Ob("E4", clause, fn, bl[0] if bl else fn.node, ok, "both bond endpoints are resolved through the id map (ids are never parsed as numbers)", slot="bond-resolution",
                   positive=parsed))
     ar = [n for n in fn.own_nodes() if isinstance(n, ast.Subscript) and const_value(n.slice) == "atomRefs2"]
